@@ -27,6 +27,17 @@ impl Driver {
         let stdout = BufReader::new(child.stdout.take().unwrap());
         Ok(Driver { child, stdin, stdout })
     }
+    pub fn spawn_cmd_env(path: &str, args: &[&str], envs: &[(String, String)]) -> std::io::Result<Driver> {
+        let mut cmd = Command::new(path);
+        cmd.args(args).stdin(Stdio::piped()).stdout(Stdio::piped());
+        for (k, v) in envs {
+            cmd.env(k, v);
+        }
+        let mut child = cmd.spawn()?;
+        let stdin = child.stdin.take().unwrap();
+        let stdout = BufReader::new(child.stdout.take().unwrap());
+        Ok(Driver { child, stdin, stdout })
+    }
     pub fn ask(&mut self, line: &str) -> String {
         if writeln!(self.stdin, "{}", line).is_err() || self.stdin.flush().is_err() {
             return "DRIVER-DEAD".into();
